@@ -307,6 +307,37 @@ class Interp:
             folded = self.fold_call(p, n, f)
             if folded is not None:
                 return folded
+            # a helper whose body is a single `return <expression>` is evaluated in place (pure accessor / formula)
+            if self.resolver is not None and not n.keywords and getattr(self, "_depth", 0) < 3:
+                r = self.resolver(n)
+                if r is not None:
+                    fnode, params = r
+                    body = [b for b in fnode.body if not (isinstance(b, ast.Expr) and isinstance(b.value, ast.Constant))]
+                    if len(body) == 1 and isinstance(body[0], ast.Return) and body[0].value is not None and len(params) == len(n.args):
+                        outs = [(p, [])]
+                        for a in n.args:
+                            nxt = []
+                            for q, acc in outs:
+                                for q2, v in self.ev(q, a):
+                                    nxt.append((q2, acc + [v]))
+                            outs = nxt
+                        res = []
+                        self._depth = getattr(self, "_depth", 0) + 1
+                        try:
+                            for q, args in outs:
+                                saved = {k: q.env.get(k) for k in params}
+                                for k, v in zip(params, args):
+                                    q.env[k] = v
+                                for q2, v in self.ev(q, body[0].value):
+                                    for k, old in saved.items():
+                                        if old is None:
+                                            q2.env.pop(k, None)
+                                        else:
+                                            q2.env[k] = old
+                                    res.append((q2, v))
+                        finally:
+                            self._depth -= 1
+                        return res
             if f in self.call_syms:
                 self.fresh += 1
                 return [(p, Opq("%s%d" % (self.call_syms[f], self.fresh)))]
@@ -404,6 +435,7 @@ class Interp:
         if len(params) < len(n.args):
             return None
         env = dict(self.consts)
+        _ = None
         defaults = fnode.args.defaults
         for pname, d in zip(params[len(params) - len(defaults):], defaults):
             try:
